@@ -120,74 +120,85 @@ class SeqOutcome:
         self.samples = []
 
 
-def replay_and_validate(exe, world_name, scripts_file, n_scripts, trace_module, workdir, tag, chunks=NCPU, interp_args=(), max_rej=3,
-                        reset_event='"e":"rs"', trace_env=None):
-    """Run all scripts through one interpreter build and validate the recorded traces. Returns SeqOutcome."""
-    out = SeqOutcome()
-    k = max(1, min(chunks, (n_scripts + 199) // 200))
+def make_tasks(exe, world_name, scripts_file, n_scripts, trace_module, workdir, tag, interp_args=(), max_rej=1,
+               reset_event='"e":"rs"', trace_env=None, chunk_scripts=1500):
+    """Split one (world, script set) into chunk tasks; each task replays its scripts on the real code and validates the trace."""
+    k = max(1, min(NCPU, (n_scripts + chunk_scripts - 1) // chunk_scripts))
     parts = split_lines(scripts_file, k, workdir, tag)
+    tasks = []
+    for i, part in enumerate(parts):
+        tasks.append(dict(exe=exe, world=world_name, part=part, idx=i, trace_module=trace_module, workdir=workdir, tag=tag,
+                          interp_args=interp_args, max_rej=max_rej, reset_event=reset_event, trace_env=trace_env))
+    return tasks
 
-    def work(i_part):
-        i, part = i_part
-        trace = os.path.join(workdir, "%s.%02d.ndjson" % (tag, i))
-        rc, err = run_interp(exe, part, trace, args=interp_args)
-        rejs = []
-        nexec = sum(1 for _ in open(part))
-        nev = 0
-        offset_scripts = 0
-        cur_trace = trace
-        cur_part_lines = open(part).readlines()
-        while True:
-            ok, line_no, nevents, res = validate_trace(trace_module, cur_trace, workdir, "%s-%02d" % (tag, i), trace_env=trace_env)
-            if ok:
-                nev += nevents
-                break
-            idx, lines = script_of_line(cur_trace, line_no, reset_event)
-            script_line = cur_part_lines[offset_scripts + idx] if offset_scripts + idx < len(cur_part_lines) else None
-            rejs.append({"world": world_name, "script": script_line.strip() if script_line else None,
-                         "trace_line": line_no, "execution": lines, "interp_rc": rc, "interp_err": err[-4000:] if rc != 0 else ""})
-            nev += line_no
-            if len(rejs) >= max_rej or rc != 0 and script_line is None:
-                break
-            # continue after the rejected execution
-            rest = cur_trace + ".rest"
+
+def run_task(t):
+    i, part, workdir, tag = t["idx"], t["part"], t["workdir"], t["tag"]
+    trace = os.path.join(workdir, "%s.%02d.ndjson" % (tag, i))
+    rc, err = run_interp(t["exe"], part, trace, args=t["interp_args"])
+    rejs = []
+    cur_part_lines = open(part).readlines()
+    nexec = len(cur_part_lines)
+    nev = 0
+    offset_scripts = 0
+    cur_trace = trace
+    made = [trace]
+    while True:
+        ok, line_no, nevents, res = validate_trace(t["trace_module"], cur_trace, workdir, "%s-%02d" % (tag, i), trace_env=t["trace_env"])
+        if ok:
+            nev += nevents
+            break
+        idx, lines = script_of_line(cur_trace, line_no, t["reset_event"])
+        script_line = cur_part_lines[offset_scripts + idx] if offset_scripts + idx < len(cur_part_lines) else None
+        first = sum(1 for _ in open(cur_trace)) if False else 0
+        # position of the unmatched event inside the rejected execution
+        before = 0
+        with open(cur_trace) as f:
             seen = 0
-            with open(cur_trace) as fi, open(rest, "w") as fo:
-                for line in fi:
-                    if seen > idx:
-                        fo.write(line)
-                    elif reset_event in line:
-                        seen += 1
-            offset_scripts += idx + 1
-            if os.path.getsize(rest) == 0:
-                break
-            cur_trace = rest
-        sample = None
-        if i == 0:
-            with open(trace) as f:
-                sample = [next(f, "").strip() for _ in range(12)]
-        for p in (trace, trace + ".rest", trace + ".err", trace + ".rest.rest", trace + ".rest.rest.rest"):
-            if os.path.exists(p):
-                os.remove(p)
-        return nexec, nev, rejs, err, sample
+            for n, line in enumerate(f, 1):
+                if seen == idx:
+                    break
+                if t["reset_event"] in line:
+                    seen += 1
+                    before = n
+        rejs.append({"world": t["world"], "script": script_line.strip() if script_line else None,
+                     "trace_line": line_no - before, "execution": lines, "interp_rc": rc, "interp_err": err[-4000:] if rc != 0 else ""})
+        nev += line_no
+        if len(rejs) >= t["max_rej"] or script_line is None:
+            break
+        rest = cur_trace + ".rest"
+        seen = 0
+        with open(cur_trace) as fi, open(rest, "w") as fo:
+            for line in fi:
+                if seen > idx:
+                    fo.write(line)
+                elif t["reset_event"] in line:
+                    seen += 1
+        made.append(rest)
+        offset_scripts += idx + 1
+        if os.path.getsize(rest) == 0:
+            break
+        cur_trace = rest
+    sample = None
+    if i == 0:
+        with open(trace) as f:
+            sample = [next(f, "").strip() for _ in range(12)]
+    for p in made + [trace + ".err", part]:
+        if os.path.exists(p):
+            os.remove(p)
+    stats = {}
+    for line in err.splitlines():
+        if line.startswith("STATS "):
+            try:
+                stats = json.loads(line[6:])
+            except ValueError:
+                pass
+    return dict(world=t["world"], tag=tag, executions=nexec, events=nev, rejections=rejs, stats=stats, sample=sample)
 
+
+def run_tasks(tasks):
     with ThreadPoolExecutor(max_workers=NCPU) as ex:
-        for nexec, nev, rejs, err, sample in ex.map(work, list(enumerate(parts))):
-            out.executions += nexec
-            out.events += nev
-            out.rejections += rejs
-            if sample:
-                out.samples = sample
-            for line in err.splitlines():
-                if line.startswith("STATS "):
-                    try:
-                        for kk, vv in json.loads(line[6:]).items():
-                            out.interp_stats[kk] = out.interp_stats.get(kk, 0) + vv
-                    except ValueError:
-                        pass
-    for p in parts:
-        os.remove(p)
-    return out
+        return list(ex.map(run_task, tasks))
 
 
 def confirm_rejection(exe, rej, trace_module, workdir, interp_args=(), reset_event='"e":"rs"', trace_env=None):
